@@ -20,7 +20,8 @@ EXPLANATION = (
     "casting emitter converts on every path of its BuiltIn and FixedLengthString arms."
     " (R11) the type the checker attaches to a record-field node is the type the TYPE declares for the element (or the type copied from the node being rewritten), never one made from the suffix the programmer wrote: the generator picks FixLength from it."
     " (R12) every emitted CopyAToVarPath pops a variable path that the same generator function built on the same emission path."
-    " (R13 = C03.R1) the indices that point to memory blocks stay right when a block is removed.")
+    " (R13 = C03.R1) the indices that point to memory blocks stay right when a block is removed."
+    " (R14) a name with a suffix resolves to the SHARED array of that name and suffix whenever the procedure has no variable of that name and suffix itself (shared with C13.R6): `Qty%(i)` does not turn into a call of an undefined function that reads 0.")
 NOT_DECIDED = ["bijectivity of the flat index map (stride arithmetic) and element values (value-level)"]
 
 
@@ -662,3 +663,7 @@ def run(ctx):
     # point to blocks stay right when a block is removed, or stores land in another procedure's array
     from . import c03
     c03.r1_index_stable(ctx, "C04.R13")
+    # an element of a SHARED array read inside a procedure is the stored element only if the name resolves to the
+    # array: the lookup falls back to the SHARED names exactly when its own lookup of that name and suffix misses
+    from . import c13
+    c13.r6_fallback_keyed_on_same_lookup(ctx, "C04.R14")
